@@ -192,8 +192,10 @@ func c04permit(c *Ctx, fn *ssa.Function) {
 	successReachable := func(reach *an.Reach) []string {
 		var out []string
 		for _, ret := range reach.Returns() {
-			if isStatusConst(ret.Results[1], "Success") {
-				out = append(out, c.InstrPos(ret))
+			for _, alt := range reach.Alts(ret) {
+				if isStatusConst(alt.Results[1], "Success") {
+					out = append(out, c.InstrPos(ret))
+				}
 			}
 		}
 		return out
